@@ -58,127 +58,7 @@ Proof. intros. unfold split. destruct (Z.ltb_spec total epochs); [reflexivity|li
 Lemma split_zero_epochs total : 0 <= total -> split total 0 = Panic.
 Proof. intros. unfold split. destruct (Z.ltb_spec total 0); [lia|]. reflexivity. Qed.
 
-(* ---------------- sends ---------------- *)
-Lemma do_sends_spec rewards : forall bal, Forall (fun r => 0 <= r) rewards -> 0 <= bal ->
-  let '(b, ps) := do_sends bal rewards in
-  b = bal - zsum ps /\ 0 <= b /\ 0 <= zsum ps <= zsum rewards /\ length ps = length rewards /\
-  Forall (fun p => 0 <= p) ps.
-Proof.
-  induction rewards as [|r rest IH]; intros bal Hr Hb; cbn [do_sends].
-  - cbn. repeat split; try lia. constructor.
-  - inversion Hr as [|? ? Hr0 Hr']; subst. destruct (Z.leb_spec r bal).
-    + specialize (IH (bal - r) Hr' ltac:(lia)). destruct (do_sends (bal - r) rest) as [b ps].
-      destruct IH as (A & B & C & D & E). cbn [zsum length]. repeat split; try lia. constructor; assumption.
-    + specialize (IH bal Hr' Hb). destruct (do_sends bal rest) as [b ps].
-      destruct IH as (A & B & C & D & E). cbn [zsum length]. repeat split; try lia. constructor; [lia|assumption].
-Qed.
-
-Lemma existsb_neg_false l : existsb (fun r => r <? 0) l = false -> Forall (fun r => 0 <= r) l.
-Proof.
-  induction l as [|x l IH]; cbn [existsb]; intros H; constructor.
-  - destruct (Z.ltb_spec x 0); [discriminate|lia].
-  - apply IH. destruct (x <? 0); [discriminate|exact H].
-Qed.
-
-(* ---------------- one trigger ---------------- *)
-(* what a trigger can do to a gauge: nothing, deactivate, or pay one epoch *)
-Lemma trigger_spec now calc bal g g' bal' paid : 0 <= bal ->
-  trigger now calc bal g = Ok (g', bal', paid) ->
-  g_deposit g' = g_deposit g /\ g_total g' = g_total g /\ g_start g' = g_start g /\
-  let d := g_distributed g' - g_distributed g in
-  0 <= zsum paid <= d /\ bal' = bal - zsum paid /\ 0 <= bal' /\
-  ((g_triggered g' = g_triggered g /\ d = 0 /\ paid = []) \/
-   (g_triggered g' = g_triggered g + 1 /\ d <= epoch_allocation g /\
-    epoch_allocation g <= g_deposit g - g_distributed g /\ g_active g' = g_active g /\
-    g_triggered g <> g_total g)).
-Proof.
-  intros Hb. unfold trigger.
-  destruct ((now <? g_start g) || negb (g_active g)).
-  { intros E. injection E as <- <- <-. cbn. repeat split; try lia. left. repeat split; lia. }
-  destruct (Z.eqb_spec (g_triggered g) (g_total g)).
-  { intros E. injection E as <- <- <-. cbn. repeat split; try lia. left. repeat split; lia. }
-  unfold uint64_c. destruct ((0 <=? g_deposit g) && (g_deposit g <? two64)); [|discriminate].
-  unfold epoch_allocation.
-  destruct (split (g_deposit g) (g_total g)) as [sp| |]; try discriminate.
-  destruct (Z.leb_spec (zlen sp) (g_triggered g)).
-  { intros E. injection E as <- <- <-. cbn. repeat split; try lia. left. repeat split; lia. }
-  destruct (nth_z sp (Z.to_nat (g_triggered g))) as [amount|]; [|discriminate].
-  destruct (Z.ltb_spec (g_deposit g - g_distributed g) amount).
-  { intros E. injection E as <- <- <-. cbn. repeat split; try lia. left. repeat split; lia. }
-  destruct calc as [rewards| |]; try discriminate.
-  2:{ intros E. injection E as <- <- <-. cbn. repeat split; try lia. left. repeat split; lia. }
-  destruct (existsb (fun r => r <? 0) rewards) eqn:Ex; [discriminate|].
-  apply existsb_neg_false in Ex.
-  destruct (Z.ltb_spec amount (zsum rewards)).
-  { intros E. injection E as <- <- <-. cbn. repeat split; try lia. left. repeat split; lia. }
-  pose proof (do_sends_spec rewards bal Ex Hb) as S. destruct (do_sends bal rewards) as [b ps].
-  destruct S as (S1 & S2 & S3 & S4 & S5).
-  intros E. injection E as <- <- <-. cbn. repeat split; try lia; try (right; repeat split; lia).
-Qed.
-
-(* ---------------- histories ---------------- *)
-Definition GInv (g : gauge) : Prop := 0 <= g_distributed g <= g_deposit g.
-Definition RInv (s : rstate) : Prop :=
-  Forall GInv (r_gauges s) /\ undistributed (r_gauges s) <= r_bal s /\ 0 <= r_bal s.
-
-Lemma undistributed_app a b : undistributed (a ++ b) = undistributed a + undistributed b.
-Proof. unfold undistributed. induction a as [|x a IH]; cbn [app map zsum]; [lia|]. rewrite IH. lia. Qed.
-
-Lemma undistributed_nonneg gs : Forall GInv gs -> 0 <= undistributed gs.
-Proof.
-  unfold undistributed. induction 1 as [|g gs Hg _ IH]; cbn [map zsum]; [lia|]. unfold GInv in Hg. lia.
-Qed.
-
-Lemma set_gauge_undistributed l : forall i g g', nth_z l i = Some g ->
-  undistributed (set_gauge l i g') =
-  undistributed l - (g_deposit g - g_distributed g) + (g_deposit g' - g_distributed g').
-Proof.
-  unfold undistributed. induction l as [|x l IH]; intros i g g' H; [destruct i; discriminate|].
-  destruct i as [|j]; cbn [nth_z] in H; cbn [set_gauge map zsum].
-  - injection H as ->. lia.
-  - rewrite (IH j g g' H). lia.
-Qed.
-
-Lemma set_gauge_forall (P : gauge -> Prop) l : forall i g', Forall P l -> P g' -> Forall P (set_gauge l i g').
-Proof.
-  induction l as [|x l IH]; intros i g' Hl Hg; [destruct i; constructor|].
-  inversion Hl; subst. destruct i; cbn [set_gauge]; constructor; auto.
-Qed.
-
-Lemma nth_z_forall {A} (P : A -> Prop) l : forall i x, Forall P l -> nth_z l i = Some x -> P x.
-Proof.
-  induction l as [|y l IH]; intros i x Hl H; [destruct i; discriminate|].
-  inversion Hl; subst. destruct i; cbn [nth_z] in H; [injection H as <-; assumption|eauto].
-Qed.
-
-Lemma rstep_inv s o s' : RInv s -> rstep s o = Ok s' -> RInv s'.
-Proof.
-  intros (HG & HU & HB). destruct o as [dep total start now funds|i now calc|a]; cbn [rstep].
-  - destruct (_ || _) eqn:E; [discriminate|]. intros H. injection H as <-. unfold RInv. cbn [r_bal r_gauges].
-    assert (0 < dep) by lia. split; [|split].
-    + apply Forall_app. split; [assumption|]. constructor; [|constructor]. unfold GInv; cbn; lia.
-    + rewrite undistributed_app. unfold undistributed at 2. cbn [map zsum g_deposit g_distributed]. lia.
-    + lia.
-  - destruct (nth_z (r_gauges s) i) as [g|] eqn:En; [|intros H; injection H as <-; repeat split; assumption].
-    destruct (trigger now calc (r_bal s) g) as [[[g' b'] paid]| |] eqn:Et; try discriminate.
-    intros H. injection H as <-. unfold RInv. cbn [r_bal r_gauges].
-    pose proof (trigger_spec _ _ _ _ _ _ _ HB Et) as (D1 & D2 & D3 & D4 & D5 & D6 & D7). cbv zeta in *.
-    pose proof (nth_z_forall GInv _ _ _ HG En) as Hg. unfold GInv in Hg.
-    split; [|split].
-    + apply set_gauge_forall; [assumption|]. unfold GInv. destruct D7 as [(?&?&?)|(?&?&?&?)]; lia.
-    + rewrite (set_gauge_undistributed _ _ g g' En). lia.
-    + lia.
-  - destruct (Z.ltb_spec a 0); [discriminate|]. intros HH. injection HH as <-. unfold RInv. cbn [r_bal r_gauges]. repeat split; try assumption; lia.
-Qed.
-
-Lemma rapply_inv s o : RInv s -> RInv (rapply s o).
-Proof. intros H. unfold rapply. destruct (rstep s o) eqn:E; [eapply rstep_inv; eassumption|assumption|assumption]. Qed.
-
-Lemma rrun_inv ops : forall s, RInv s -> RInv (rrun s ops).
-Proof. induction ops as [|o ops IH]; intros s H; cbn; [assumption|]. apply IH. apply rapply_inv. assumption. Qed.
-
-Lemma rinv_init : RInv (mkR 0 []).
-Proof. repeat split; cbn; try lia. constructor. Qed.
+(* SENDS-TRIGGER-HISTORIES: rewritten below *)
 
 (* ---------------- epochs ---------------- *)
 (* a tick never moves the epoch start beyond now, and a trigger advances exactly one epoch *)
